@@ -1,4 +1,4 @@
-//go:build verif
+//go:build verif && (c08 || allprops)
 
 package main
 
@@ -66,34 +66,6 @@ func reqBiasSX(bl []interface{}) SX {
 		out[i] = L(Str(bj["name"].(string)), Bool(dis), p)
 	}
 	return out
-}
-
-func decideBody(b J) (int, []byte) {
-	js, _ := json.Marshal(b)
-	return decideJSON(js)
-}
-
-func cloneJ(b J) J {
-	js, _ := json.Marshal(b)
-	var out J
-	json.Unmarshal(js, &out)
-	return out
-}
-
-func biasesOf(resp []byte) []J {
-	var r struct {
-		Biases []J `json:"biases"`
-	}
-	json.Unmarshal(resp, &r)
-	return r.Biases
-}
-
-func resultOf(resp []byte) json.RawMessage {
-	var r struct {
-		Result json.RawMessage `json:"result"`
-	}
-	json.Unmarshal(resp, &r)
-	return r.Result
 }
 
 func init() {
